@@ -10,8 +10,9 @@ import YaegiVerif.Generated.C09
             newest-first policy) has passed its guard and is about to execute; `quiet`: when nothing moves any more
      ENTRY  (r OP…) an entry of Execute's run list executed on the root frame, (f OP…) in a new frame
      OP     s | t | m | (c SITE OP…) | (g SITE OP…) | (b KIND CANC)      KIND = recv | recv2 | send | range | select
-            SITE = c | w | l | e (closure of an earlier evaluation) | h, k (a wrapper / a closure entered by native code that calls back late:
-            when such a call is in flight after the cancellation it is executed only when nothing else can move)
+            SITE = c | w | l, then optionally e (the function value was made by an EARLIER, completed evaluation) and / or
+            h (it is entered by native code that calls back late: when such a call is in flight after the cancellation it is
+            executed only when nothing else can move)
    outcome = n<ops before the cancellation>;<ret>;<per goroutine that ever executed an operation, in creation order>
              per goroutine: i<in-flight operations 0/1>f<fresh operations>t<host calls after the cancellation><E|S|R>
              (E exited, S still blocked, R still wants to run)
@@ -29,10 +30,14 @@ def parseKind : String → Option BlkKind
   | "recv" => some .recv | "recv2" => some .recv2 | "send" => some .send
   | "range" => some .range | "select" => some .select | _ => none
 
-def parseSite : String → Option Site
-  | "c" => some .call | "w" => some .wrapper | "l" => some .closure | "e" => some .earlier | "h" => some .wrapperLate
-  | "k" => some .closureLate
-  | _ => none
+def parseSite (str : String) : Option Site :=
+  match str.toList with
+  | k :: flags =>
+    let kind : Option SiteKind := match k with | 'c' => some .call | 'w' => some .wrapper | 'l' => some .closure | _ => none
+    if flags.all (fun c => c == 'e' || c == 'h') then
+      kind.map (fun kd => { kind := kd, early := flags.contains 'e', late := flags.contains 'h' })
+    else none
+  | [] => none
 
 partial def parseOps : List Sexp → Option Prog
   | [] => some .done
@@ -64,7 +69,7 @@ def parseEntry : Sexp → Option Entry
 /-- the operation the goroutine has passed its guard for is a call made by native code that calls back late -/
 def heldArmed (g : G) : Bool :=
   g.armed && (match g.stack with
-    | fr :: _ => (match fr.pc with | .call .wrapperLate _ _ => true | .call .closureLate _ _ => true | _ => false)
+    | fr :: _ => (match fr.pc with | .call s _ _ => s.late | _ => false)
     | [] => false)
 
 /-- the newest goroutine allowed to be granted its operation (a goroutine whose late native callback has been granted
